@@ -248,6 +248,7 @@ def batch(cid, tier):
     seed = int(os.environ.get("VERIF_SEED", "0"))
     jobs = int(os.environ.get("VERIF_JOBS", "0") or 0) or min(
         16, os.cpu_count() or 1)
+    os.environ["VERIF_TIER"] = tier      # generators may go deeper
     check = load_check(cid)
     plan = _plan(check, tier)
     budget = float(os.environ.get(
